@@ -407,6 +407,8 @@ pub struct BuiltIn { pub errors: Errors }
 
 pub struct Vm {
   pub fiber: Fiber,
+  /// the fiber the program started on (the handlers under contract only ever use `fiber`)
+  pub main_fiber: Fiber,
   pub builtin: BuiltIn,
   /// byte offset of the instruction pointer inside the current function's code
   pub ip: Ghost<int>,
